@@ -61,7 +61,7 @@ func init() {
 		Bounds: func(tier string) []string {
 			return []string{"host side: histories of 3 (thorough 5) operations bind / look-up / release on the socket table with 2 specific IPs + the wildcard x 2 ports, symbolic choice per operation", "router side: one attachment step from an arbitrary router state: subnet 10.b.c.0/24 (thorough: also /16, /28), automatic counter 0..255, two NICs already attached at arbitrary addresses of the subnet, the new NIC with 0..2 arbitrary static addresses"}
 		},
-		Assume: []string{"IP.String is an injective constructor of the string datatype (map keys)", "net.CIDRMask / IP.Mask / IPNet.Contains are executed from the standard library's own SSA"},
+		Assume:  []string{"IP.String is an injective constructor of the string datatype (map keys)", "net.CIDRMask / IP.Mask / IPNet.Contains are executed from the standard library's own SSA"},
 		Outside: []string{"more than two NICs attached before the step", "IPv6 subnets", "the user supplying the same static address twice (not constrained by the property)"}})
 	register(&Prop{ID: "C14", Pkgs: vnetPkgs, InitPkgs: []string{"vnet"}, InstrDirs: []string{"vnet"},
 		Runs: func(tier string) []gosym.RunConfig {
@@ -74,8 +74,26 @@ func init() {
 		Bounds: func(tier string) []string {
 			return []string{"DelayFilter: Run goroutine + one producer handing in 1 (thorough 2) datagrams, a clock goroutine advancing time once at an arbitrary moment, delay 0..50 (symbolic), gaps 0..60 (symbolic) between arrivals, channel-timer expiries dispatched at any later step, all interleavings at channel/select/lock granularity"}
 		},
-		Assume: []string{"time.NewTimer/Stop/Reset/C follow the legacy channel-timer semantics (one buffered tick, Reset does not drain)", "the clock advances only when the producer (or the harness) advances it", "context.Context is a harness model whose Done channel is never closed"},
+		Assume:  []string{"time.NewTimer/Stop/Reset/C follow the legacy channel-timer semantics (one buffered tick, Reset does not drain)", "the clock advances only when the producer (or the harness) advances it", "context.Context is a harness model whose Done channel is never closed"},
 		Outside: []string{"the router's minDelay/maxJitter path (see DESIGN.md)", "more than one producer"}})
+	register(&Prop{ID: "C10", Pkgs: []HarnessPkg{{Dir: "vnet", Name: "vnet"}, {Dir: "packetio", Name: "packetio"}}, InitPkgs: []string{"deadline", "packetio", "vnet"}, InstrDirs: []string{"vnet", "packetio", "deadline"},
+		Runs: func(tier string) []gosym.RunConfig {
+			mk := func(n, r int64, budget int) gosym.RunConfig {
+				return gosym.RunConfig{Name: fmt.Sprintf("vnetconn-n%d-r%d", n, r), PkgPath: modulePath + "/vnet", Entry: "VerifConnDeadline", Sched: true, SmallInts: 48, Unwind: 6, AssertPrefix: "C10:",
+					Params: map[string]int64{"n": n, "readers": r, "steps": 60}, BudgetSec: budget, Optional: budget > 0}
+			}
+			// iterative deepening: the smallest instance must complete; larger ones are explored
+			// within a time budget (the cost depends on how the socket implements its deadline)
+			if tier == "thorough" {
+				return []gosym.RunConfig{mk(1, 1, 0), mk(2, 1, 600), mk(3, 1, 900), mk(2, 2, 900)}
+			}
+			return []gosym.RunConfig{mk(1, 1, 0), mk(3, 1, 40)}
+		},
+		Bounds: func(tier string) []string {
+			return []string{"vnet UDP socket: one user goroutine with 2 (thorough 3) events (SetReadDeadline zero / offset -20..100 from now, clock advance 1..200; symbolic) and 1 reader; each reader calls ReadFrom once at an arbitrary moment; timer ticks dispatched at any later step; idle period at the end"}
+		},
+		Assume:  []string{"time.NewTimer/Reset/C: legacy channel-timer semantics (one buffered tick, Reset does not drain), selected by the module's go 1.20 line", "no data arrives (data delivery is C01/C06)", "the clock advances only when the user goroutine or the harness advances it, plus a positive amount at every timer dispatch"},
+		Outside: []string{"packetio.Buffer / dpipe / Bridge / udp.Conn read deadlines beyond what C08 and C09 decide about deadline.Deadline and Buffer.Read (see DESIGN.md)"}})
 	for _, id := range []string{"C02", "C03"} {
 		register(&Prop{ID: id, Pkgs: vnetPkgs, InitPkgs: []string{"vnet"}, InstrDirs: []string{"vnet"}, Runs: natRuns(id + ":"), Bounds: natBounds, Assume: natAssume,
 			Outside: []string{"more than k datagrams (in particular more than 16384 allocations: see DESIGN.md)", "more than 2 internal endpoints / 3 remotes", "IPv6"}})
